@@ -428,7 +428,7 @@ func (c *Ctx) EdgeReturns(fn *ssa.Function, cond Cond, idx int, want, why string
 		reached := ReachFrom([]*ssa.BasicBlock{e.To()}, BackEdges(fn))
 		bad := ""
 		for _, r := range Returns(fn) {
-			if reached[r.Block()] && idx < len(r.Results) && !Glob(want, Canon(r.Results[idx])) {
+			if reached[r.Block()] && idx < len(r.Results) && !globAny(want, Canon(r.Results[idx])) {
 				bad = c.At(r) + " returns `" + Canon(r.Results[idx]) + "`"
 			}
 		}
